@@ -3,6 +3,7 @@ package main
 import (
 	"encoding/json"
 	"fmt"
+	apifu "github.com/ccbrown/api-fu"
 	"reflect"
 	"strings"
 
@@ -19,6 +20,7 @@ type Case struct {
 	Direct     *Direct `json:"direct,omitempty"`
 	Walk       *Walk   `json:"walk,omitempty"`
 	Codec      *cur    `json:"codec,omitempty"`
+	CodecAny   *AnyVal `json:"codec_any,omitempty"` // round trip of a cursor with an interface-typed component
 }
 
 type Direct struct {
@@ -605,7 +607,68 @@ func (h *harness) evalWalk(c Case) (what, kind string) {
 
 // ---- codec --------------------------------------------------------------------------------------------
 
+// AnyVal spells a value of the interface-typed cursor component replayably.
+type AnyVal struct {
+	T  string  `json:"type"` // int64 | uint32 | int32 | uint8 | float64 | float32 | string | bool | nil
+	N  int64   `json:"n,omitempty"`
+	F  float64 `json:"f,omitempty"`
+	S  string  `json:"s,omitempty"`
+	Id int64   `json:"id"`
+}
+
+func (a AnyVal) value() any {
+	switch a.T {
+	case "int64":
+		return a.N
+	case "uint32":
+		return uint32(a.N)
+	case "int32":
+		return int32(a.N)
+	case "uint8":
+		return uint8(a.N)
+	case "float64":
+		return a.F
+	case "float32":
+		return float32(a.F)
+	case "string":
+		return a.S
+	case "bool":
+		return a.N != 0
+	}
+	return nil
+}
+
+func (h *harness) evalCodecAny(c Case) (what, kind string) {
+	v := anyCur{c.CodecAny.value(), c.CodecAny.Id}
+	var d any
+	s := ""
+	p := ""
+	func() {
+		defer func() {
+			if r := recover(); r != nil {
+				p = fmt.Sprint(r)
+			}
+		}()
+		s = emitAny(v)
+		d = apifu.DeserializeCursor(anyCursorType, s)
+	}()
+	if p != "" {
+		return "the cursor codec panicked on an emitted cursor: " + p, "crash"
+	}
+	if d == nil || !reflect.DeepEqual(d, v) {
+		got := "nil"
+		if dc, ok := d.(anyCur); ok {
+			got = fmt.Sprintf("{Key: %T(%v), Id: %d}", dc.Key, dc.Key, dc.Id)
+		}
+		return fmt.Sprintf("Deserialize(Serialize({Key: %T(%v), Id: %d})) = %s: the emitted cursor does not come back as the cursor it was", v.Key, v.Key, v.Id, got), "property"
+	}
+	return "", ""
+}
+
 func (h *harness) evalCodec(c Case) (what, kind string) {
+	if c.CodecAny != nil {
+		return h.evalCodecAny(c)
+	}
 	v := *c.Codec
 	s := emitAny(v)
 	d, ok, p := decodeFull(s)
